@@ -89,7 +89,7 @@ inductive Res (α : Type) where
   | eformat (msg : String)
   | fault
   | exc
-deriving Repr
+deriving Repr, DecidableEq
 
 /-- status of the `*cat` helpers -/
 inductive CatSt where
@@ -207,7 +207,7 @@ structure Msa where
   gs : List (Bytes × List (Option Bytes)) := []
   gc : List (Bytes × Bytes) := []
   gr : List (Bytes × List (Option Bytes)) := []
-deriving Repr
+deriving Repr, DecidableEq
 
 def Msa.nseq (m : Msa) : Nat := m.names.length
 
@@ -220,6 +220,12 @@ def setOptRow (a : OptRows) (idx : Nat) (v : Bytes) : OptRows :=
   let l := a.getD []
   let l := l ++ List.replicate (idx + 1 - l.length) none
   some (l.set idx (some v))
+
+/-- `setOptRow` when there is something to store -/
+def setOptRowO (a : OptRows) (idx : Nat) (v : Option Bytes) : OptRows :=
+  match v with
+  | some d => setOptRow a idx d
+  | none => a
 
 /-- pad an optional per-sequence array to `n` entries (the C arrays are allocated for `sqalloc ≥ nseq` entries) -/
 def padOptRows (a : OptRows) (n : Nat) : OptRows :=
